@@ -31,6 +31,8 @@ PAYLOADS = [
     "'; import os; '", "',__pyab_sentinel__(),'", "'], weights=[1]) or __pyab_sentinel__() or partial(deterministic_choice, population=['",
     "a\rimport os", "x\r__pyab_sentinel__()\r#", "\r", "line1\rline2", "a\x0cb", "\x0c__pyab_sentinel__()", "\u2028x", "\x85y",
     "\x0b", "\r__pyab_sentinel__()", "s\r\t__pyab_sentinel__()",
+    "US\uff02 or f != \uff02", "x\uff07 weighted 0, \uff07y", "\uff02", "\uff07", "a\uff08b\uff09", "\uff5bx\uff5d", "\uff0b", "\uff03",
+    "\uff02+str(__pyab_sentinel__())+\uff02", "\ufe63", "\u2033", "\u02ba",
     "it's", 'say "hi"', "plain", "\\n", "\\t'", "${x}", "`x`", "'+'", "\\'", 'a" + __pyab_sentinel__() + "b',
 ]
 
